@@ -141,8 +141,10 @@ class Facts:
 
 
 class FnGraph:
-    def __init__(self, prog, name, summaries, types):
+    def __init__(self, prog, name, summaries, types, stmt_weight=None, self_summary=None):
         self.prog, self.name, self.summ, self.types = prog, name, summaries, types
+        self.stmt_weight = stmt_weight      # optional: cursor advance performed by the statements of a block
+        self.self_summary = self_summary
         self.b = prog.body(name)
         self.nodes = {}     # (bb, frozen facts) -> id
         self.node_list = []
@@ -150,6 +152,8 @@ class FnGraph:
         self.returns = []   # (node id, class)
         self.calls = []     # (node id, callee, weight-before?) for underflow / recursion
         self.lexer_driven = set()   # node ids whose block calls the lexer
+        self.live = self.may_use_later()
+        self.relevant = self.relevant_locals()
         self.build()
 
     def ty_of(self, base, segs):
@@ -160,7 +164,159 @@ class FnGraph:
                 return None
         return ty
 
+    def mentioned(self, bb):
+        """locals mentioned anywhere in block bb"""
+        out = set()
+
+        def pl(p):
+            if p is not None:
+                out.add(p["l"])
+                for x in p["pr"]:
+                    if x.startswith("[_"):
+                        out.add(int(x[2:-1]))
+
+        def op(o):
+            if isinstance(o, dict) and "p" in o:
+                pl(o["p"])
+
+        blk = self.b.blocks[bb]
+        for s in blk["stmts"]:
+            if s["k"] != "A":
+                continue
+            pl(s["p"])
+            rv = s["rv"]
+            for key in ("o", "a", "b"):
+                if key in rv:
+                    op(rv[key])
+            if "p" in rv:
+                pl(rv["p"])
+            for o in rv.get("ops", []):
+                op(o)
+        t = blk["term"]
+        if t["k"] == "Call":
+            for a in t["args"]:
+                op(a)
+            pl(t["dest"])
+        elif t["k"] == "Sw":
+            op(t["o"])
+        elif t["k"] == "Drop":
+            pass
+        elif t["k"] == "Return":
+            out.add(0)
+        return out
+
+    def relevant_locals(self):
+        """locals whose variant matters: switched on through a discriminant read, the return place, and whatever flows into them"""
+        rel = {0}
+        for blk in self.b.blocks:
+            for s in blk["stmts"]:
+                if s["k"] == "A" and s["rv"]["k"] == "Discr":
+                    rel.add(s["rv"]["p"]["l"])
+        changed = True
+        while changed:
+            changed = False
+            for blk in self.b.blocks:
+                for s in blk["stmts"]:
+                    if s["k"] != "A" or s["p"]["l"] not in rel:
+                        continue
+                    rv = s["rv"]
+                    srcs = []
+                    if rv["k"] == "Use" and "p" in rv["o"]:
+                        srcs.append(rv["o"]["p"]["l"])
+                    elif rv["k"] == "Ref":
+                        srcs.append(rv["p"]["l"])
+                    elif rv["k"] == "Agg" and len(rv["ops"]) == 1 and rv["ak"].rsplit(":", 1)[-1] in ("Some", "Ok", "Err", "Continue", "Break"):
+                        srcs += [o["p"]["l"] for o in rv["ops"] if "p" in o]
+                    for l in srcs:
+                        if l not in rel:
+                            rel.add(l)
+                            changed = True
+                t = blk["term"]
+                if t["k"] == "Call" and t["dest"]["l"] in rel:
+                    cal = t.get("inst") or t.get("f") or ""
+                    if cal.endswith("Try>::branch") or cal.endswith("Clone>::clone"):
+                        for a in t["args"]:
+                            if "p" in a and a["p"]["l"] not in rel:
+                                rel.add(a["p"]["l"])
+                                changed = True
+        return rel
+
+    def may_use_later(self):
+        """live-in sets of locals per block (backward liveness with kills of whole-local assignments)"""
+        n = self.b.n
+        gen, kill = [], []
+        for i in range(n):
+            g, k = set(), set()
+
+            def rd(p):
+                if p is None:
+                    return
+                if p["l"] not in k:
+                    g.add(p["l"])
+                for x in p["pr"]:
+                    if x.startswith("[_"):
+                        l = int(x[2:-1])
+                        if l not in k:
+                            g.add(l)
+
+            def op(o):
+                if isinstance(o, dict) and "p" in o:
+                    rd(o["p"])
+
+            blk = self.b.blocks[i]
+            for s_ in blk["stmts"]:
+                if s_["k"] != "A":
+                    continue
+                rv = s_["rv"]
+                for key in ("o", "a", "b"):
+                    if key in rv:
+                        op(rv[key])
+                if "p" in rv:
+                    rd(rv["p"])
+                for o in rv.get("ops", []):
+                    op(o)
+                if s_["p"]["pr"]:
+                    rd(s_["p"])        # partial write keeps the rest alive
+                else:
+                    k.add(s_["p"]["l"])
+            t = blk["term"]
+            if t["k"] == "Call":
+                for a in t["args"]:
+                    op(a)
+                if t["dest"]["pr"]:
+                    rd(t["dest"])
+                else:
+                    k.add(t["dest"]["l"])
+            elif t["k"] == "Sw":
+                op(t["o"])
+            elif t["k"] == "Drop":
+                rd(t["p"])
+            elif t["k"] == "Return":
+                if 0 not in k:
+                    g.add(0)
+            elif t["k"] == "Assert":
+                op(t.get("cond"))
+            gen.append(g)
+            kill.append(k)
+        live_in = [set(g) for g in gen]
+        changed = True
+        while changed:
+            changed = False
+            for i in range(n - 1, -1, -1):
+                out = set()
+                for s_ in self.b.succ[i]:
+                    out |= live_in[s_]
+                new = gen[i] | (out - kill[i])
+                if new != live_in[i]:
+                    live_in[i] = new
+                    changed = True
+        return live_in
+
     def node(self, bb, facts):
+        # forget facts about locals that no block reachable from here mentions
+        lv = self.live[bb]
+        rel = self.relevant
+        facts = Facts({k: v for k, v in facts.d.items() if int(k.split("|", 1)[0][1:]) in lv and int(k.split("|", 1)[0][1:]) in rel})
         k = (bb, facts.frozen())
         if k not in self.nodes:
             self.nodes[k] = len(self.node_list)
@@ -215,6 +371,14 @@ class FnGraph:
             f2 = self.apply_stmts(bb, facts)
             t = blk["term"]
             k = t["k"]
+            if self.stmt_weight is not None:
+                w0 = self.stmt_weight(blk)
+                if w0:
+                    # the block's own statements advance the cursor: route through an intermediate node
+                    mid = len(self.node_list)
+                    self.node_list.append((bb, f2))
+                    self.edges.append((u, mid, w0, "stmts"))
+                    u = mid
             if k in ("Goto", "Drop", "Assert"):
                 if "t" in t:
                     self.edges.append((u, self.node(t["t"], f2), 0, None))
@@ -298,6 +462,14 @@ class FnGraph:
                         if inner is not None and cv == "Continue":
                             f4 = f4.set(dk + "|@Continue.0", inner)
                         self.edges.append((u, self.node(tgt, f4), 0, None))
+                elif cal.endswith("::from_residual"):
+                    vs = self.types.variants(self.ty_of(db, dsg) or "")
+                    f4 = f3
+                    if vs == ["Ok", "Err"]:
+                        f4 = f3.set(dk, ["Err"])
+                    elif vs == ["None", "Some"]:
+                        f4 = f3.set(dk, ["None"])
+                    self.edges.append((u, self.node(tgt, f4), 0, None))
                 else:
                     # a clone keeps the variant facts of its argument
                     if cal.endswith("Clone>::clone") and t["args"] and "p" in t["args"][0]:
@@ -421,7 +593,8 @@ def lowest_prefix(graph, dist, summaries):
 def analyse(prog):
     types = Types(prog)
     fns = [n for n in prog.fns if n.startswith(PARSER) and "mir" in prog.fns[n] and "::{" not in n
-           and n not in (PARSER + "next_lexem", PARSER + "drop_lexem", PARSER + "new")]
+           and n not in (PARSER + "next_lexem", PARSER + "drop_lexem", PARSER + "new")
+           and prog.fns[n]["mir"]["argc"] >= 1 and "parser::Parser" in prog.fns[n]["mir"]["locals"][1]["ty"]]
     summaries = {}
     graphs = {}
     for it in range(12):
@@ -439,12 +612,55 @@ def analyse(prog):
     return fns, summaries, graphs
 
 
+LEXER_NEXT = "lexer::Lexer::next_lexem"
+
+
+def lexer_check(ctx):
+    """lexer progress: every cycle of Lexer::next_lexem advances (input_index, char_index) lexicographically, and every
+    lexem it returns has consumed at least one character (so the lexem list is finite and `parse` terminates)"""
+    prog = ctx.prog
+    ctx.anchor_fn(LEXER_NEXT)
+    types = Types(prog)
+
+    def advance(blk):
+        w = 0
+        for s in blk["stmts"]:
+            if s["k"] == "A" and s["p"]["pr"] and s["p"]["pr"][-1] in (".char_index", ".input_index"):
+                rv = s["rv"]
+                if rv["k"] == "Use" and "p" in rv["o"] and rv["o"]["p"]["pr"] == [".0"]:
+                    w += 1      # result of a checked `+ 1`
+        return w
+
+    summ = {}
+    for it in range(4):
+        g = FnGraph(prog, LEXER_NEXT, {}, types, stmt_weight=advance)
+        # the recursive call for `asc` counts as the callee's own summary
+        d = g.distances()
+        rc = return_classes(g, d)
+        break
+    bad = g.nonprogress_cycles()
+    ctx.obligation(not bad)
+    for blocks in bad:
+        lines = sorted({g.b.blocks[b]["term"].get("sp", "?").rsplit(":", 1)[0] for b in blocks})
+        ctx.violation("progress/lexer", "%s (%s)" % (g.b.blocks[blocks[0]]["term"].get("sp", "?"), LEXER_NEXT),
+                      "the lexer's loop can go round without advancing its cursor (through %s): some input makes the lexer spin forever" % ", ".join(lines[:6]))
+    some = min((v for (c, _n), v in rc.items() if c in ("Some", None)), default=None)
+    ok = some is not None and some >= 1
+    ctx.obligation(ok)
+    if not ok:
+        ctx.violation("progress/lexer-empty-lexem", ctx.where(LEXER_NEXT),
+                      "the lexer can return a lexem without having consumed a character (minimal advance %s): the lexem list would be unbounded" % some)
+    ctx.covered("product graph of Lexer::next_lexem (%d nodes): cycles advance the cursor, returned lexems consume input" % len(g.node_list),
+                len(g.node_list), distinct_keys=[LEXER_NEXT], sample={str(k): v for k, v in rc.items()})
+
+
 def check(ctx):
+    lexer_check(ctx)
     prog = ctx.prog
     fns, summ, graphs = analyse(prog)
     n_nodes = sum(len(g.node_list) for g, d in graphs.values())
     n_edges = sum(len(g.edges) for g, d in graphs.values())
-    ctx.floor(len(fns), 20, "parser methods analysed by the cursor analysis", "parser.rs")
+    ctx.floor(len(fns), 18, "parser methods analysed by the cursor analysis", "parser.rs")
     missing = [f for f in fns if f not in summ]
     for f in missing:
         ctx.violation("cursor/no-summary/%s" % f.rsplit("::", 1)[1], ctx.where(f),
